@@ -1,1 +1,13 @@
-fn main(){}
+//! rvchild <role> [args…] — subprocess roles of the harness.
+//!   routinator <args…>   the routinator command line (same steps as routinator's main.rs), in a
+//!                        process of its own because logging can be set up only once per process.
+fn main() {
+    let args: Vec<String> = std::env::args().collect();
+    match args.get(1).map(|s| s.as_str()) {
+        Some("routinator") => std::process::exit(rv::fmtx::child_routinator(&args[2..])),
+        _ => {
+            eprintln!("usage: rvchild <role> [args…]");
+            std::process::exit(2);
+        }
+    }
+}
